@@ -64,6 +64,10 @@ pub enum Op {
     SetMaxDefault,
     /// send n fresh messages to a second, unlimited topic of the same stream (created on first use)
     SendOther(u8),
+    /// a third partition is created, receives five messages (several segments), and is deleted again
+    PartitionComesAndGoes,
+    /// a further topic is created, receives five messages (several segments), and is deleted again
+    TopicComesAndGoes,
 }
 
 impl Op {
@@ -85,6 +89,8 @@ impl Op {
             Op::Send2(n) => format!("T{n}"),
             Op::SetMaxDefault => "Zdef".into(),
             Op::SendOther(n) => format!("X{n}"),
+            Op::PartitionComesAndGoes => "Pcg".into(),
+            Op::TopicComesAndGoes => "Tcg".into(),
         }
     }
 }
@@ -486,6 +492,44 @@ impl World {
             Op::Send2(n) => {
                 let (msgs, result) = self.send_to(2, None, *n as usize);
                 StepOut::Sent { msgs, result }
+            }
+            Op::PartitionComesAndGoes | Op::TopicComesAndGoes => {
+                // nothing of this survives the operation, so it does not need to be journalled: the System
+                // functions the handlers call are called directly
+                let topic_variant = matches!(op, Op::TopicComesAndGoes);
+                let mut msgs = Vec::new();
+                for _ in 0..5 {
+                    self.seq += 1;
+                    msgs.push(Message::new(Some(7000 + self.seq as u128), Bytes::from(format!("transient-{:04}", self.seq).into_bytes()), None));
+                }
+                let shared = self.node.shared();
+                let root = self.node.root.clone();
+                let r = self.node.try_block_on(async move {
+                    let t9 = Identifier::numeric(9).unwrap();
+                    {
+                        let mut system = shared.write().await;
+                        if topic_variant {
+                            system.create_topic(&root, &sid(), Some(9), "transient", 1, IggyExpiry::NeverExpire, CompressionAlgorithm::None, MaxTopicSize::Unlimited, None).await.map(|_| ())?;
+                        } else {
+                            system.create_partitions(&root, &sid(), &sid(), 1).await?;
+                        }
+                    }
+                    {
+                        let system = shared.read().await;
+                        if topic_variant {
+                            system.append_messages(&root, sid(), t9.clone(), Partitioning::partition_id(1), msgs, None).await?;
+                        } else {
+                            system.append_messages(&root, sid(), sid(), Partitioning::partition_id(3), msgs, None).await?;
+                        }
+                    }
+                    let mut system = shared.write().await;
+                    if topic_variant {
+                        system.delete_topic(&root, &sid(), &t9).await
+                    } else {
+                        system.delete_partitions(&root, &sid(), &sid(), 1).await
+                    }
+                });
+                StepOut::Done(self.flatten(r))
             }
             Op::SendOther(n) => {
                 // topic 2 of stream 1: journalled creation through the TCP handler, then a plain append
